@@ -177,3 +177,105 @@ def f_slice_len(a):
     if 0 <= a <= 5:
         return len(xs[:a]) * 10 + len(xs[a:])
     return -1
+
+
+def f_slice_sum(a, b, c):
+    args = (a, b, c)
+    head = args[:2]
+    tail = args[2:]
+    return head[0] * 100 + head[1] * 10 + tail[0] + len(head) * 1000
+
+
+def f_zip_dict(a, b):
+    names = ("x", "y")
+    d = {k: v for k, v in zip(names, (a, b))}
+    return d["x"] - d["y"]
+
+
+def f_enumerate(a, b, c):
+    total = 0
+    for i, v in enumerate((a, b, c)):
+        if i == 1:
+            continue
+        total += (i + 1) * v
+    return total
+
+
+def f_star_unpack(a, b, c):
+    first, *rest = (a, b, c)
+    return first * 100 + rest[0] * 10 + rest[1] + len(rest)
+
+
+def f_kwargs(a, b):
+    def inner(x, y=5, **kw):
+        return x * 100 + y * 10 + kw.get("z", 0)
+    return inner(a, z=b)
+
+
+def f_default_args(a):
+    def inner(x, y=3):
+        return x - y
+    return inner(a) + inner(a, y=a)
+
+
+def f_in_tuple(a):
+    if a in (1, 3, 5):
+        return 1
+    if a not in (0, 2, 4):
+        return 2
+    return 3
+
+
+def f_is_not_none(a):
+    x = a if a != 0 else None
+    return 1 if x is not None else 0
+
+
+def f_nested_func_closure(a, b):
+    def add(n):
+        return n + b
+    return add(a) * 2
+
+
+def f_tuple_compare(a, b):
+    return 1 if (a, 1) == (b, 1) else (2 if (a, b) != (b, a) else 3)
+
+
+def f_list_build(a, b):
+    out = []
+    for v in (a, b, a):
+        if v > 0:
+            out.append(v)
+    return len(out)
+
+
+def f_dict_items(a, b):
+    d = {"p": a, "q": b}
+    total = 0
+    for k, v in d.items():
+        if k == "q":
+            total += 2 * v
+        else:
+            total += v
+    return total
+
+
+def f_while_break_flag(a):
+    i = 0
+    found = -1
+    while i < 6 and found < 0:
+        if i * i >= a:
+            found = i
+        i += 1
+    return found
+
+
+def f_raise_in_helper(a):
+    def check(x):
+        if x > 3:
+            raise ValueError("x")
+        return x
+    try:
+        return check(a)
+    except ValueError:
+        return -1
